@@ -206,10 +206,39 @@ theorem render_agree (s : State) (fmt : Fmt) (ft fc : Option Nat) (incl : Bool) 
     · simp [chanRow, e1, f1]
     · cases fmt <;> cases incl <;> simp_all [project, chanRow]
 
+/-- C13.5, completeness direction (round 9, audit B14; `render_agree` alone is satisfied by a filter that returns
+nothing): every topic of the snapshot that passes the topic filter — and, under a channel filter, owns that channel —
+is shown (projected) by the JSON and the text rendering, and so is each of its channels that passes the channel
+filter. Together with `render_agree`: the filtered rendering is EXACTLY the projection of the matching rows. The
+driver renders these `rows` (`statsq` lines) and the harness diffs them against the real `/stats` answers. -/
+theorem render_complete (s : State) (fmt : Fmt) (ft fc : Option Nat) (incl : Bool) :
+    ∀ t ∈ snapshot s, (ft = none ∨ ft = some t.tid) → (∀ c, fc = some c → ∃ x ∈ t.chans, x.cid = c) →
+      project fmt incl (topicRow .json t) ∈ rows fmt (filterSnap ft fc incl (snapshot s)) ∧
+      ∀ c ∈ t.chans, (fc = none ∨ fc = some c.cid) →
+        project fmt incl (chanRow .json t.tid c) ∈ rows fmt (filterSnap ft fc incl (snapshot s)) := by
+  intro t ht hft hfc
+  obtain ⟨t', ht', e1, e2, e3, e4⟩ := Nsq.Proofs.ChanStats.filterSnap_keeps (incl := incl) ht hft hfc
+  constructor
+  · simp only [rows, List.mem_flatMap, List.mem_cons, List.mem_map]
+    refine ⟨t', ht', Or.inl ?_⟩
+    cases fmt <;> cases incl <;> simp [project, topicRow, e1, e2, e3]
+  · intro c hc hm
+    obtain ⟨c', hc', f1, f2, f3, f4⟩ := e4 c hc hm
+    simp only [rows, List.mem_flatMap, List.mem_cons, List.mem_map]
+    refine ⟨t', ht', Or.inr ⟨c', hc', ?_⟩⟩
+    cases fmt <;> cases incl <;> simp_all [project, chanRow]
+
 /-! non-vacuity: a state with two topics, filters that select and filters that select nothing -/
 example : (rows .text (filterSnap (some 1) (some 1) false (snapshot C01.exN))).length = 2 ∧
     (rows .json (filterSnap none none true (snapshot C01.exN))).length = 3 ∧
     (rows .json (filterSnap (some 9) none true (snapshot C01.exN))).length = 0 := by decide
+
+/-- `render_complete` applied: topic 1 of `C01.exN` passes the filter `topic=1`, so its row is in the text rendering -/
+example : (snapshot C01.exN).any (fun t => t.tid == 1) = true ∧
+    ∀ t ∈ snapshot C01.exN, t.tid = 1 →
+      project .text false (topicRow .json t) ∈ rows .text (filterSnap (some 1) none false (snapshot C01.exN)) :=
+  ⟨by decide, fun t ht h1 =>
+    (render_complete C01.exN .text (some 1) none false t ht (Or.inr (by rw [h1])) (fun c hc => by cases hc)).1⟩
 
 end Nsqd
 
